@@ -1,10 +1,12 @@
 (* C12_Check.v — correspondence checker for C12.
-   model_agrees: after every operation the model's foreign-key columns / join rows, target table,
-   Count, Find and in-memory fields equal what real gorm + SQLite produced.
+   model_agrees: after every operation the object-level model's (C12_Elems.run_e) foreign-key columns /
+   join rows, target table, Count, Find, in-memory fields and the in-memory key of every held element
+   equal what real gorm + SQLite produced; the key-level model (C12_Model.run) on the erased history
+   gives the same tables.
    spec_holds: written from the property text on the OBSERVED snapshots: each operation changes each
    owner's stored link set as the finite-set reading says, Count/Find report exactly those links,
-   the distinct in-memory records are exactly those links, associated records survive (and no kept
-   link loses its record). *)
+   the distinct in-memory records are exactly those links and carry their owner's key, only the links
+   of this relation and handle change, associated records survive (and no kept link loses its record). *)
 From Verif Require Export Base C12_Model C12_Elems.
 Open Scope Z_scope.
 
